@@ -4,6 +4,8 @@
 package transaction
 
 //@ import "github.com/oasisprotocol/oasis-core/go/common/quantity"
+//@ ghost func GasPriceOf(f *Fee) int { return ite(quantity.Val(&f.Amount) == 0 || f.Gas == 0, 0, div(quantity.Val(&f.Amount), int(f.Gas))) }
+
 //@ func Fee.GasPrice
 //@   props C16 C09
 //@   safety panic div nil
